@@ -286,10 +286,13 @@ func (t *Trimmer) traceExtendMethod(fathers []*parser.Service, svc *parser.Servi
 			funcName := father.Name + "." + function.Name
 			for i, method := range t.trimMethods {
 				if ok, _ := method.MatchString(funcName); ok {
-					currentMap[svc] = struct{}{}
-					t.markFunction(function, ast, filename)
-					t.trimMethodValid[i] = true
-					ret = true
+					// same rule as markService: a name that merely starts with the pattern text is not selected
+					if funcName == method.String() || !strings.HasPrefix(funcName, method.String()) {
+						currentMap[svc] = struct{}{}
+						t.markFunction(function, ast, filename)
+						t.trimMethodValid[i] = true
+						ret = true
+					}
 				}
 			}
 		}
